@@ -94,6 +94,8 @@ def run(ctx):
                        'before polling; no other loop exit', floor=5)
     ctx.rule('R-C07d', 'failed iv_fd_register_try clears `registered` and calls the method unregister hook', floor=2)
 
+    ctx.rule('R-C07e', 'no busy wake-ups from rounding: the millisecond conversion of the remaining time rounds up (shared with C04 R-C04g)', floor=6)
+    ctx.section(lambda c: __import__('ivy.rules.c04', fromlist=['x']).rounding(c, 'R-C07e'))
     covered = set()
     ctx.section(balance, covered)
     ctx.section(auto_unregister, covered)
